@@ -339,11 +339,13 @@ func (t Token) Float32() (float32, bool) {
 			return float32(f), true
 		}
 	case numberValue:
-		n, err := strconv.ParseFloat(t.str, 64)
+		// Parse at 32-bit precision: parsing as float64 and then narrowing
+		// rounds twice, which is off by one ulp for some decimal strings.
+		n, err := strconv.ParseFloat(t.str, 32)
 		if err == nil {
-			// Overflows are treated as (-)infinity.
 			return float32(n), true
 		}
+		// Overflows are treated as (-)infinity.
 		nerr := err.(*strconv.NumError)
 		if nerr.Err == strconv.ErrRange {
 			return float32(n), true
